@@ -109,6 +109,7 @@ structure Cfg where
   tConst : TokId
   tOldConst : TokId
   isType : Nat → List Ch → Bool    -- ch->is_type(text) when the n-th token is being produced
+  softLits : List (List Ch) := []  -- literal rules whose action first asks `is_type` (outside PROPERTY syntax): repaired "A" "U" "R" "W" "E"
   expectStops : Bool := false      -- the EXPECT rule of the <comment> state is the repaired variant (stops before `*/`)
 
 def kwFind (kws : List (List Ch × TokId × Nat)) (w : List Ch) : Option (TokId × Nat) :=
@@ -141,7 +142,8 @@ def numTok (w : List Ch) : Tok :=
 /-- result of an action in the INITIAL state: tokens handed to the parser and whether `<comment>` was entered -/
 def action (cfg : Cfg) (n : Nat) (r : Rule) (w : List Ch) : List Tok × Bool :=
   match r with
-  | .lit _ t => ([.lit t], false)
+  | .lit _ t =>
+    (if cfg.softLits.contains w && !(cfg.mask &&& cfg.bitProperty != 0) && cfg.isType n w then [.typename w] else [.lit t], false)
   | .litOld _ t => (if cfg.mask &&& cfg.bitOld != 0 then [.lit t] else [.unknown], false)
   | .cont => ([], false)
   | .lineComment => ([], false)
